@@ -504,8 +504,8 @@ class Stream(AbstractStream):
 
     def _reset_thermo(self, thermo):
         if thermo is self._thermo: return
-        self._thermo = thermo
         self._imol.reset_chemicals(thermo.chemicals)
+        self._thermo = thermo
         self.reset_cache()
         if hasattr(self, '_streams'):
             for phase, stream in self._streams.items():
